@@ -778,6 +778,12 @@ func (s *State) GetReverseStateDiff(
 			value := felt.Zero
 			if blockNumber > 0 {
 				oldValue, err := s.ContractStorageAt(&addr, &key, blockNumber-1)
+				if errors.Is(err, ErrCheckHeadState) {
+					// No log above blockNumber-1: this block did not change the slot (a zero
+					// write to an absent slot is not logged), so the head value is the old
+					// value - the same fallback stateHistory.ContractStorage uses.
+					oldValue, err = s.ContractStorage(&addr, &key)
+				}
 				if err != nil {
 					return core.StateDiff{}, err
 				}
